@@ -43,6 +43,9 @@ func runC05(c *engine.Ctx, tier string) {
 		Must: []engine.Sel{{Field: "config/v2.ProposalValidatePhase.State", RHS: "config/v2.ProposalValidatePhase_FAILED"}, {Field: "config/v2.Failure.Type", RHS: "config/v2.Failure_INVALID", OnlyLit: true}},
 		MustNot: []engine.Sel{validated, {Field: "config/v2.ProposalStatus.RollbackValues"}},
 		Why:     "a rejected candidate fails the proposal as INVALID and captures nothing"})
+	c.Guard(engine.Guard{ID: "C05.3", Pkg: pkgProposalCtl, Min: 1, Sel: engine.Sel{Call: pluginValidate},
+		Require: "@P.Status.Phases.Validate.State == config/v2.ProposalValidatePhase_VALIDATING && !(@PREV != 0 && @CFG.Status.Committed.Index != @PREV)",
+		Why:     "the candidate is built on the predecessor's committed result: validation waits until the committed cursor is at the predecessor"})
 	candidateDocument(c)
 	commitSource(c)
 	registryVerdict(c)
@@ -288,6 +291,7 @@ func chunkCursor(c *engine.Ctx) {
 				continue
 			}
 			var sent, slice, next, cursor string
+			var intWrites [][2]string
 			exit := -1
 			for j := i + 1; j < len(p.Events); j++ {
 				ej := &p.Events[j]
@@ -302,19 +306,51 @@ func chunkCursor(c *engine.Ctx) {
 					slice = ej.RHS
 				}
 				if ej.Kind == engine.EvWrite && ej.Local != nil && isIntType(ej.Local.Type().String()) {
-					next = ej.RHS
+					intWrites = append(intWrites, [2]string{ej.Local.Name(), ej.RHS})
 				}
 				if ej.Kind == engine.EvCall && strings.HasSuffix(ej.CalleeName, ".Send") && len(ej.Args) == 1 {
 					sent = ej.Args[0]
 				}
 			}
-			if exit < 0 || exit == i+1 || slice == "" {
+			if k := strings.Index(sent, "Json:$jsonData["); k >= 0 {
+				// the slice as it is sent (possibly cut in place inside the request literal)
+				rest := sent[k+len("Json:"):]
+				depth := 0
+				for q := 0; q < len(rest); q++ {
+					if rest[q] == '[' || rest[q] == '(' {
+						depth++
+					} else if rest[q] == ']' || rest[q] == ')' {
+						depth--
+						if depth == 0 {
+							slice = rest[:q+1]
+							break
+						}
+					}
+				}
+			}
+			if exit < 0 || exit == i+1 {
 				continue
+			}
+			if slice == "" {
+				o.Site(c.P.Pos(le.Pos) + " send loop")
+				o.Eval(1)
+				o.Fail(&engine.Violation{Key: "ModelPluginInfo.Validate|chunk cursor", Pos: c.P.Pos(le.Pos), Func: p.Root.Name(), Msg: "an iteration of the send loop does not send a slice data[lo:hi] of the document (sent: " + sent + ")"})
+				return
 			}
 			// the loop condition, assumed just before the loop entry
 			for j := i - 1; j >= 0 && j >= i-3; j-- {
 				if ej := &p.Events[j]; ej.Kind == engine.EvCond && ej.Lit.R == "len($jsonData)" && ej.Lit.Mask == 1 {
 					cursor = ej.Lit.L
+				}
+			}
+			// the cursor's next value: the last write to the variable the loop condition tests
+			cname := strings.TrimPrefix(cursor, "?")
+			if k := strings.Index(cname, "@"); k >= 0 {
+				cname = cname[:k]
+			}
+			for _, w := range intWrites {
+				if w[0] == cname {
+					next = w[1]
 				}
 			}
 			o.Site(c.P.Pos(le.Pos) + " slice " + slice + " then cursor := " + next)
